@@ -17,8 +17,10 @@ TRACE_KEYS = ("den", "p0", "fund0", "exact", "ev")
 TRACE_DEFAULTS = {"halt": False}        # halt: the history is a market of a run with a trading halt rule
 
 DESIGN = {
-    "quick": [("MC_PamsMarket_quick", "MC_PamsMarket_quick.cfg", 600), ("MC_PamsMarket_zero", "MC_PamsMarket_zero.cfg", 600)],
+    "quick": [("MC_PamsMarket_quick", "MC_PamsMarket_quick.cfg", 600), ("MC_PamsMarket_zero", "MC_PamsMarket_zero.cfg", 600),
+              ("MC_PamsMarket_jump", "MC_PamsMarket_jump.cfg", 900)],
     "thorough": [("MC_PamsMarket_quick", "MC_PamsMarket_quick.cfg", 600), ("MC_PamsMarket_zero", "MC_PamsMarket_zero.cfg", 600),
+                 ("MC_PamsMarket_jump", "MC_PamsMarket_jump.cfg", 900),
                  ("MC_PamsMarket_medium", "MC_PamsMarket_medium.cfg", 1800),
                  ("MC_PamsMarket_thorough", "MC_PamsMarket_thorough.cfg", 3600)],
 }
@@ -31,11 +33,16 @@ LEVEL_TEXT = {
 }
 
 
-def design_models(tier):
+JUMP_PROPS = ("C03", "C04", "C08")     # the properties the clock-jump model adds something to (expiry, statistics, rounds after a jump)
+
+
+def design_models(tier, prop=None):
     out = []
     if os.environ.get("VERIF_TRACES_ONLY") == "1":      # selftest: the design models do not depend on the code
         return [{"module": "skipped", "states": 0, "transitions": 0, "depth": 0, "wall_s": 0}]
     for mod, cfg, to in DESIGN[tier]:
+        if mod == "MC_PamsMarket_jump" and prop is not None and prop not in JUMP_PROPS:
+            continue
         r = tlc.run_tlc(mod, cfg, timeout=to, tag=mod)
         if not r.ok:
             raise MachineryError("design model %s: %s" % (mod, r.violation or r.error))
@@ -70,6 +77,10 @@ def build_histories(tier, seed, prop):
         hs.append(h)
     for h in drive_book.generate(N_DEEP[tier] // 2, sub_seed(seed, "book-jumpy"), flavour="jumpy"):
         h["src"] = "random-jumpy"
+        hs.append(h)
+    # market orders resting on both sides, partly filled, met by new arrivals
+    for h in drive_book.generate(N_DEEP[tier] // 3, sub_seed(seed, "book-standoff"), flavour="standoff"):
+        h["src"] = "random-standoff"
         hs.append(h)
     try:
         from . import replay_book
@@ -209,7 +220,7 @@ def cases_for(prop, hs, verdicts):
 
 def check(prop, tier, seed, t0):
     from . import replay_book, tables_book
-    models = design_models(tier)
+    models = design_models(tier, prop)
     extra_cov = {}
     extra_cases = []
     if prop in ("C02", "C19"):
@@ -258,6 +269,10 @@ def check(prop, tier, seed, t0):
         # high-frequency agents): the same clauses on books the RUNNER builds
         from . import drive_events, group_run
         eruns = drive_events.generate(30 if tier == "quick" else 900, sub_seed(seed, "events", prop), kinds=("plimit", "mixed", "halt", "plimit"))
+        if prop == "C08":
+            # ... and of runs whose sessions hand resting books over from a non-matching to a matching session
+            from . import drive_run
+            eruns += drive_run.handover_runs(24 if tier == "quick" else 600, seed)
         rhs, owner = group_run.book_histories(eruns)
         rv, w2 = validate(rhs, tag="evbook")
         tlc_wall += w2
